@@ -36,7 +36,7 @@ func checkC01(c *Ctx) {
 	dump := cfg{Spec: "Spec", Constants: map[string]string{"MaxCells": "2", "Pairs": "TRUE", "TwoKeys": "FALSE", "DumpEdges": "TRUE", "SampleK": "300"}, Constraint: "Constr", View: "View"}
 	nR := 1500
 	if !c.Quick() {
-		dump.Constants["SampleK"] = "120"
+		dump.Constants["SampleK"] = "3000"
 		dump.Constants["TwoKeys"] = "TRUE"
 		nR = 0
 	}
